@@ -20,8 +20,8 @@ CHECK_CORR = 'check_corr'
 CHECK_SPEC = 'check_spec'
 SHARD = 85
 RULE = ('one case = backend (dict / directory / zip / caching wrapper) x failure-free history on one PulseStorage '
-        '(stores, overwrites, clear or a new PulseStorage taking over, deletes, re-stores of deleted identifiers with '
-        'the same or another object) x final store / overwrite / delete.  The history runs once; from the restored state '
+        '(stores, overwrites, clear or a new PulseStorage taking over, loads that cache new objects, deletes, re-stores '
+        'of deleted identifiers with the same or another object) x final store / overwrite / delete.  The history runs once; from the restored state '
         '(directory + attributes of the PulseStorage / backend objects; a sample is repeated from scratch and must '
         'agree) the final operation runs once without failure and once for EVERY mutating primitive raising '
         '(open-for-write, file write [raise or half-written], os.remove/rename/replace, mkstemp, ZipFile.writestr, '
@@ -35,7 +35,8 @@ RULE = ('one case = backend (dict / directory / zip / caching wrapper) x failure
         'object, same object twice, identifier that exists but is not cached, second object with a used identifier, '
         'un-serializable leaf}; deterministic families `order` (all assignments of the identifiers 3/10/20 to parent '
         'and children), `hist` (delete + re-store histories), `ow` (overwrite of an existing, referenced identifier '
-        'with new sub-templates, retried / wrapped afterwards), `lowlevel`, `same` (the cached object itself again); '
+        'with new sub-templates, retried / wrapped afterwards), `lowlevel`, `same` (the cached object itself again), '
+        '`load` (loaded vs. original objects as sub-templates); '
         'random templates on pre-populated storages.  Non-trivial = at least two crash positions or a pre-write '
         'failure; distinct = distinct canonical JSON of the case.')
 TRUSTED = [
